@@ -104,7 +104,7 @@ template <unsigned N, unsigned ES, typename BT> static void regFlags(bool sm) {
 #endif
 
 int main(int argc, char** argv) {
-	for (int i = 1; i + 1 < argc; ++i) if (std::string(argv[i]) == "--group") g_group = argv[i + 1];
+	g_group = parse_group(argc, argv, g_group);
 #if SET == 0
 	regFlags<8, 2, uint8_t>(true); regFlags<6, 2, uint8_t>(true);
 	reg<8, 1, uint8_t, true, true, false>(true); reg<8, 1, uint8_t, true, true, true>(true);
